@@ -470,6 +470,16 @@ theorem same_gateFire (s : State) (ch : Option Int) (ok : Bool) : Same (gateFire
   · exact hg
   · exact (same_openCore _ ch ok).trans hg
 
+theorem same_retryOpen (s : State) (ch : Option Int) (ok : Bool) : Same (retryOpen s ch ok).1 s := by
+  unfold retryOpen
+  split
+  · exact ⟨rfl, rfl, rfl⟩
+  · split
+    · exact ⟨rfl, rfl, rfl⟩
+    · split
+      · exact ⟨rfl, rfl, rfl⟩
+      · exact same_openCore s ch ok
+
 theorem same_foldl_join (ps : List Player) (s : State) :
     Same (ps.foldl (fun acc p => (join acc p.id).1) s) s := by
   induction ps generalizing s with
@@ -501,6 +511,7 @@ theorem ledger_step (s : State) (e : Event) (h : Ledger s)
   | finish id => exact ledger_finish s id h
   | autojoin => exact (same_autoJoinStale s).ledger h
   | fire ch ok => exact (same_gateFire s ch ok).ledger h
+  | retry ch ok => exact (same_retryOpen s ch ok).ledger h
   | settle r => exact ledger_settle s r hz h
   | «continue» ex => exact (same_continueGame s ex).ledger h
 
